@@ -257,7 +257,7 @@ Definition toy_dec (k : nat) (p : padding) (c : list Z) : option (list Z) :=
   match c with
   | t :: h :: l :: rest =>
     let n := Z.to_nat (h * 256 + l) in
-    if (length c =? k)%nat && (t =? tag p) && (0 <=? h) && (h <? 256) && (n <=? k - overhead p)%nat
+    if (length c =? k)%nat && (t =? tag p) && (n <=? k - overhead p)%nat
     then Some (firstn n rest) else None
   | _ => None
   end.
@@ -348,19 +348,12 @@ Definition oracle (c : case) (out : list Z) : bool :=
 
 Definition tr_ok (k : nat) (p : padding) (o : option (list Z)) : bool :=
   match o with Some pl => (length pl <=? k - overhead p)%nat | None => true end.
-Fixpoint none_only_last (tr : list (option (list Z))) : bool :=
-  match tr with
-  | [] => true
-  | None :: tr' => match tr' with [] => true | _ => false end
-  | Some _ :: tr' => none_only_last tr'
-  end.
-
 Definition valid (c : case) : bool :=
   match c with
   | RoundTrip kz pol pw n n' =>
     (66 <? kz) && utf8_valid pw && (Z.of_nat (length pw) + Z.of_nat (length n) <? 2 ^ 32)
   | Crafted kz p null clen tr n' =>
-    (66 <? kz) && (0 <=? clen) && forallb (tr_ok (Z.to_nat kz) p) tr && none_only_last tr &&
+    (66 <? kz) && (0 <=? clen) && forallb (tr_ok (Z.to_nat kz) p) tr &&
     (* the transcript covers the whole blocks: all of them, or up to the first failure *)
     (Z.of_nat (length tr) * kz <=? clen) &&
     match all_plain tr with Some _ => Z.of_nat (length tr) =? clen / kz | None => true end
